@@ -35,7 +35,12 @@ const (
 
 const NtBobPw = "bob-other-secret-pw"
 
-func NtUsers() map[string]string { return map[string]string{"alice": NtAlicePw, "bob": NtBobPw, "empty": ""} }
+// ("off" is in the user file twice: an earlier entry with a password and a later one that replaces it with none)
+func NtUsers() map[string]string {
+	return map[string]string{"alice": NtAlicePw, "bob": NtBobPw, "empty": "", "off#first": NtOffEarlierPw, "off": ""}
+}
+
+const NtOffEarlierPw = "pw-off-earlier-entry"
 
 // ntTarget abstracts the two ways of reaching the verifier.
 type ntTarget interface {
@@ -78,8 +83,8 @@ func DialAuth(sock string) (*grpc.ClientConn, error) {
 
 func newDirect() ntDirect {
 	var users []authcfg.UserConfig
-	for u, p := range NtUsers() {
-		users = append(users, authcfg.UserConfig{Username: u, Password: p})
+	for _, e := range UserEntries(NtUsers()) {
+		users = append(users, authcfg.UserConfig{Username: e[0], Password: e[1]})
 	}
 	return ntDirect{h: authntlm.NewNTLMAuth(database.NewConfig(users))}
 }
@@ -169,6 +174,8 @@ func RunNtlm(s *NtScript, tw *TraceWriter, rng *rand.Rand, conn *grpc.ClientConn
 				pass = NtAlicePw
 			case "alice_": // alice's name with a blank appended
 				name, pass = "alice ", NtAlicePw
+			case "off": // the password of the entry that the user file's later entry for this name replaced
+				pass = NtOffEarlierPw
 			}
 			if pw == "wrong" {
 				pass = pass + "-wrong"
